@@ -94,12 +94,21 @@ def run(chk):
     app = Ombott()
     plan = {}
 
+    def bad_status(tgt):
+        # an assignment the response refuses (and the handler survives) leaves the response as it was
+        if plan.get('bad_status') is not None:
+            try:
+                tgt.status = plan['bad_status']
+            except (ValueError, TypeError):
+                pass
+
     @app.route('/h')
     def h():
         calls, status, mode = plan['calls'], plan['status'], plan['mode']
         if mode == 'response':
             tgt = app.response
             tgt.status = status
+            bad_status(tgt)
             for c in calls:
                 c['out'] = apply_call(tgt, c['entry'], c['name'], c['v'])
             if plan.get('copy'):
@@ -133,6 +142,7 @@ def run(chk):
                     c['out'] = 'TypeError'
                 except ValueError:
                     c['out'] = 'ValueError'
+        bad_status(resp)
         for c in calls:
             if c['entry'] != 'ctor':
                 c['out'] = apply_call(resp, c['entry'], c['name'], c['v'])
@@ -179,7 +189,8 @@ def run(chk):
         if len(set(ctor_names)) != len(ctor_names):
             ctor_kw = False          # keyword arguments cannot repeat a name
         status = rng.choice([200, 200, 204, 304, 404, 201])
-        plan.update(calls=calls, status=status, mode=mode, ctor_kw=ctor_kw, ctor_dict=ctor_dict, copy=rng.random() < 0.3, **{'raise': rng.random() < 0.4})
+        plan.update(calls=calls, status=status, mode=mode, ctor_kw=ctor_kw, ctor_dict=ctor_dict, copy=rng.random() < 0.3, **{'raise': rng.random() < 0.4},
+                    bad_status=rng.choice([1000, 99, 0, -304, '1000 Too Big', 'abc', '99 Low']) if rng.random() < 0.2 else None)
         st, line, headers, body, nsr = call_app(app, base_environ(PATH_INFO='/h'))
         if st == 500:
             # e.g. content_length reader is not involved; a 500 here means a setter let something through that broke headerlist
@@ -210,6 +221,48 @@ def run(chk):
                           {'calls': [[c['entry'], c['name'], c['s'], c['t'], c['out']] for c in t['calls']], 'status': t['status'], 'clauses': ['HeaderListTotal']})
         if not t['types_ok']:
             chk.violation('C14: emitted header list contains a non-str element', {'clauses': ['NativeStrings'], 'status': t['status']})
+    # Set-Cookie lines are response header values too: one line per cookie, whole, whatever text the cookie carries
+    cplan = {}
+
+    @app.route('/ck')
+    def ck():
+        tgt = app.response if cplan['mode'] == 'response' else HTTPResponse('body')
+        for nm, val, opts in cplan['cookies']:
+            tgt.set_cookie(nm, val, **opts)
+        return 'body' if cplan['mode'] == 'response' else tgt
+    texts = ['plain', '\u0445\u043e\u0440\u043e\u0448\u043e', 'mi\u0105sto', '\u00c5ngstr\u00f6m', '\u4e2d\u6587', '\u20ac5', 'a b;c,d', 'tab\there', 'x\x0by', 'q"uote', '\u2028sep', '\x85nel',
+             '\u0445' * 40, 'caf\u00e9']
+    for _ in range(1500 if thorough else 300):
+        k = rng.choice([1, 2, 3, 5])
+        cookies = []
+        for i in range(k):
+            opts = {}
+            if rng.random() < 0.4:
+                opts['path'] = '/' + rng.choice(texts[:6])
+            if rng.random() < 0.2:
+                opts['domain'] = rng.choice(['example.org', 'mi\u0105sto.example', '\u00c5.example'])
+            if rng.random() < 0.2:
+                opts['httponly'] = True
+            cookies.append(('c%d' % i, rng.choice(texts), opts))
+        cplan.update(mode=rng.choice(['response', 'httpresponse']), cookies=cookies)
+        st, line, headers, body, nsr = call_app(app, base_environ(PATH_INFO='/ck'))
+        got = [v for kk, v in headers if kk.lower() == 'set-cookie']
+        chk.count(1, ('cookies', cplan['mode'], json.dumps([[c[0], c[1], sorted(c[2])] for c in cookies])))
+        why = None
+        if st != 200:
+            why = 'status %s' % st
+        elif len(got) != len(cookies):
+            why = '%d cookies set, %d Set-Cookie lines emitted' % (len(cookies), len(got))
+        else:
+            for (nm, val, opts), line_ in zip(cookies, got):
+                if not line_.startswith(nm + '=') or any(ord(c) < 32 or ord(c) == 127 or ord(c) > 255 for c in line_):
+                    why = 'the line for %s is %r' % (nm, line_[:60])
+                elif 'path' in opts and 'Path=' not in line_:
+                    why = 'the line for %s lost its Path attribute: %r' % (nm, line_[:80])
+        if why:
+            chk.violation('C14: [\'CookieLinesWhole\'] fails: set_cookie calls %s on %s -> %s; emitted %s'
+                          % ([[c[0], c[1][:20], c[2]] for c in cookies], cplan['mode'], why, [g[:50] for g in got]),
+                          {'cookies': [[c[0], [ord(x) for x in c[1]], c[2]] for c in cookies], 'mode': cplan['mode'], 'clauses': ['CookieLinesWhole']})
     drift = sorted(set(missing) - set(fails))
     if drift:
         t = good[drift[0]]
